@@ -376,8 +376,47 @@ func c18GenBinding(r *Rng) c18Scn {
 	return s
 }
 
+// c18GenTree: raw tree operations on paths of any length (also empty, also prefixes of
+// each other), components over {a,b,*}.
+func c18GenTree(r *Rng) c18Scn {
+	s := c18Scn{Kind: "tree", Validator: "none"}
+	comp := []string{"a", "b", "a", "b", "*"}
+	path := func() []string {
+		p := []string{}
+		for i, n := 0, r.Intn(5); i < n; i++ {
+			p = append(p, Pick(r, comp))
+		}
+		return p
+	}
+	for i, n := 0, r.Intn(5); i < n; i++ {
+		s.Paths = append(s.Paths, path())
+	}
+	for i, n := 0, 1+r.Intn(6); i < n; i++ {
+		if len(s.Paths) > 0 && r.Bool() { // a query derived from an inserted path
+			q := append([]string{}, Pick(r, s.Paths)...)
+			for j := range q {
+				if r.Chance(1, 3) {
+					q[j] = Pick(r, comp)
+				}
+			}
+			if r.Chance(1, 3) {
+				q = append(q, Pick(r, comp))
+			}
+			if len(q) > 0 && r.Chance(1, 5) {
+				q = q[:len(q)-1]
+			}
+			s.Queries = append(s.Queries, q)
+		} else {
+			s.Queries = append(s.Queries, path())
+		}
+	}
+	return s
+}
+
 func c18Gen(r *Rng) c18Scn {
 	switch x := r.Intn(20); {
+	case x < 1:
+		return c18GenTree(r)
 	case x < 9:
 		return c18GenValidate(r)
 	case x < 16:
@@ -393,7 +432,8 @@ func c18Gen(r *Rng) c18Scn {
 
 // c18Exhaustive enumerates every pair (one allow rule, one request rule) of granular
 // rules over the alphabet {a,b,c,*}: resource rules (group, resource, name in
-// {none,a,b,c,*}, verb) and URL rules (url in {a,b,c,*,""}, verb).
+// {none,a,b,c,*}, verb), URL rules (url in {a,b,c,*,""}, verb) and four rules with one
+// empty list; then every two-rule wildcard-free allow list over {a,b} against every request.
 func c18Exhaustive(emit func(c18Scn)) {
 	alpha := []string{"a", "b", "c", "*"}
 	var rules []c18PRule
@@ -415,9 +455,32 @@ func c18Exhaustive(emit func(c18Scn)) {
 			rules = append(rules, c18PRule{V: []string{v}, G: []string{}, R: []string{}, N: []string{}, U: []string{u}})
 		}
 	}
+	// one empty list per field: such a rule expands to nothing
+	rules = append(rules,
+		c18PRule{V: []string{}, G: []string{"a"}, R: []string{"a"}, N: []string{}, U: []string{}},
+		c18PRule{V: []string{"a"}, G: []string{}, R: []string{"a"}, N: []string{}, U: []string{}},
+		c18PRule{V: []string{"a"}, G: []string{"a"}, R: []string{}, N: []string{}, U: []string{}},
+		c18PRule{V: []string{}, G: []string{}, R: []string{}, N: []string{}, U: []string{"a"}})
 	for _, a := range rules {
 		for _, q := range rules {
 			emit(c18Scn{Kind: "validate", Validator: "role", Allow: []c18PRule{a}, Requests: []c18PRule{q}})
+		}
+	}
+	// components must not be mixed across allow-list rules: every allow list of two
+	// wildcard-free resource rules over {a,b} against every such request
+	var plain []c18PRule
+	for _, g := range []string{"a", "b"} {
+		for _, rs := range []string{"a", "b"} {
+			for _, v := range []string{"a", "b"} {
+				plain = append(plain, c18PRule{V: []string{v}, G: []string{g}, R: []string{rs}, N: []string{}, U: []string{}})
+			}
+		}
+	}
+	for _, a1 := range plain {
+		for _, a2 := range plain {
+			for _, q := range plain {
+				emit(c18Scn{Kind: "validate", Validator: "role", Allow: []c18PRule{a1, a2}, Requests: []c18PRule{q}})
+			}
 		}
 	}
 }
